@@ -26,6 +26,7 @@ REPLAYS = os.path.join(VERIF, "replays")
 FINDINGS = os.path.join(VERIF, "known_findings.json")
 
 NCPU = os.cpu_count() or 4
+TLA_CP = "/opt/veriftools/tla/tla2tools.jar:/opt/veriftools/tla/CommunityModules-deps.jar"
 
 
 class ToolError(Exception):
@@ -149,7 +150,10 @@ def tlc(module, cfg, wd, workers=None, timeout=1800, simulate=None, seed=None, e
     number of REPLAY lines written to replay_out."""
     os.makedirs(wd, exist_ok=True)
     log_path = os.path.join(wd, module + ".out")
-    cmd = ["tlc", "-metadir", os.path.join(wd, "states"), "-cleanup", "-noGenerateSpecTE",
+    # java is started directly (not through the tlc wrapper) so that -Xss also applies to the
+    # main thread, which evaluates ASSUMEs and initial states (deep recursive operators)
+    cmd = ["java", "-Xss512m", "-XX:+UseParallelGC", "-cp", TLA_CP, "tlc2.TLC",
+           "-metadir", os.path.join(wd, "states"), "-cleanup", "-noGenerateSpecTE",
            "-workers", str(workers or max(2, NCPU // 2))]
     if coverage:
         cmd += ["-coverage", "1"]
